@@ -647,7 +647,10 @@ func mergeScrapeStatus(a, b map[uint64]*target.ScrapeStatus) map[uint64]*target.
 	for k, v := range b {
 		old := a[k]
 		if old == nil {
-			a[k] = v
+			// copy it: v belongs to a shard of this replica or to the explorer,
+			// merging the status of a later replica into it must not write to that object
+			newV := *v
+			a[k] = &newV
 			continue
 		}
 
